@@ -423,7 +423,7 @@ func mkBranchT[T any](c *CSpec, targets []string, rec *recorder) *compose.GraphB
 	}
 	if c.Collect {
 		return compose.NewStreamGraphBranch(func(ctx context.Context, in *schema.StreamReader[T]) (string, error) {
-			rec.add(c.ID, "C")
+			rec.add(ctx, c.ID, "C")
 			cs, err := readAll(in)
 			if err != nil {
 				return "", err
@@ -436,7 +436,7 @@ func mkBranchT[T any](c *CSpec, targets []string, rec *recorder) *compose.GraphB
 		}, ends)
 	}
 	return compose.NewGraphBranch(func(ctx context.Context, in T) (string, error) {
-		rec.add(c.ID, "I")
+		rec.add(ctx, c.ID, "I")
 		return pick(any(in))
 	}, ends)
 }
@@ -469,7 +469,7 @@ func mkMultiBranchT[T any](c *CSpec, targets []string, rec *recorder) *compose.G
 	}
 	if c.Collect {
 		return compose.NewStreamGraphMultiBranch(func(ctx context.Context, in *schema.StreamReader[T]) (map[string]bool, error) {
-			rec.add(c.ID, "C")
+			rec.add(ctx, c.ID, "C")
 			cs, err := readAll(in)
 			if err != nil {
 				return nil, err
@@ -482,7 +482,7 @@ func mkMultiBranchT[T any](c *CSpec, targets []string, rec *recorder) *compose.G
 		}, ends)
 	}
 	return compose.NewGraphMultiBranch(func(ctx context.Context, in T) (map[string]bool, error) {
-		rec.add(c.ID, "I")
+		rec.add(ctx, c.ID, "I")
 		return pick(any(in))
 	}, ends)
 }
@@ -566,7 +566,7 @@ func mkLoopBranch(c *CSpec, entry, next string, rec *recorder) *compose.GraphBra
 	}
 	if c.Collect {
 		return compose.NewStreamGraphBranch(func(ctx context.Context, in *schema.StreamReader[string]) (string, error) {
-			rec.add(c.ID, "C")
+			rec.add(ctx, c.ID, "C")
 			cs, err := readAll(in)
 			if err != nil {
 				return "", err
@@ -579,7 +579,7 @@ func mkLoopBranch(c *CSpec, entry, next string, rec *recorder) *compose.GraphBra
 		}, ends)
 	}
 	return compose.NewGraphBranch(func(ctx context.Context, in string) (string, error) {
-		rec.add(c.ID, "I")
+		rec.add(ctx, c.ID, "I")
 		return pick(any(in))
 	}, ends)
 }
@@ -1002,7 +1002,7 @@ func mkChainBranchT[T any](c *CSpec, names []string, rec *recorder) *compose.Cha
 	}
 	if c.Collect {
 		return compose.NewStreamChainBranch(func(ctx context.Context, in *schema.StreamReader[T]) (string, error) {
-			rec.add(c.ID, "C")
+			rec.add(ctx, c.ID, "C")
 			cs, err := readAll(in)
 			if err != nil {
 				return "", err
@@ -1015,7 +1015,7 @@ func mkChainBranchT[T any](c *CSpec, names []string, rec *recorder) *compose.Cha
 		})
 	}
 	return compose.NewChainBranch(func(ctx context.Context, in T) (string, error) {
-		rec.add(c.ID, "I")
+		rec.add(ctx, c.ID, "I")
 		return pick(any(in))
 	})
 }
@@ -1197,8 +1197,7 @@ func typedChunks[I any](chunks []any) []I {
 }
 
 func (r runnerT[I, O]) call(par int, x any, chunks []any) POut {
-	ctx := context.Background()
-	r.rec.reset()
+	ctx, sink := r.rec.newCall(context.Background())
 	var opts []compose.Option
 	if r.cb {
 		opts = append(opts, compose.WithCallbacks(drainHandler()))
@@ -1217,7 +1216,7 @@ func (r runnerT[I, O]) call(par int, x any, chunks []any) POut {
 			return streamOut(r.r.Transform(ctx, schema.StreamReaderFromArray(typedChunks[I](chunks)), opts...))
 		}
 	})
-	o.calls = r.rec.snapshot()
+	o.calls = sink.snapshot()
 	return o
 }
 
@@ -1262,8 +1261,7 @@ type packRunner[I, O any] struct {
 }
 
 func (r packRunner[I, O]) call(par int, x any, chunks []any) POut {
-	ctx := context.Background()
-	r.rec.reset()
+	ctx, sink := r.rec.newCall(context.Background())
 	o := guarded(func() POut {
 		switch par {
 		case 0:
@@ -1278,7 +1276,7 @@ func (r packRunner[I, O]) call(par int, x any, chunks []any) POut {
 			return streamOut(r.t(ctx, schema.StreamReaderFromArray(typedChunks[I](chunks))))
 		}
 	})
-	o.calls = r.rec.snapshot()
+	o.calls = sink.snapshot()
 	return o
 }
 
